@@ -41,11 +41,12 @@ def _verify_target(args):
         seen = {}
         out["generated"] = len(obls)
         for idx, ob in enumerate(obls):
-            key = obligation_key(c.target, ob)
+            ctarget = c.target + ("@" + c.variant if getattr(c, "variant", None) else "")
+            key = obligation_key(ctarget, ob)
             seen[key] = seen.get(key, 0) + 1
             if idx % nshards != shard: continue
             discharge(ob, quick=(tier == "quick"))
-            rec = {"id": "%s#%d" % (key, seen[key]), "key": key, "target": c.target, "kind": ob["kind"], "label": ob["label"],
+            rec = {"id": "%s#%d" % (key, seen[key]), "key": key, "target": ctarget, "kind": ob["kind"], "label": ob["label"],
                    "clause": ob.get("text"), "status": ob["status"], "backend": ob.get("backend"), "time_s": ob.get("time_s"),
                    "path": "/".join(ob["trace"]), "line": ob.get("line")}
             if ob["status"] == "fault":
@@ -170,7 +171,7 @@ def run_property(prop, tier, repo, here, targets=None, procs=None):
             for k in canaries: canaries[k] += (r.get("canaries") or {}).get(k, 0)
         if r["unsupported"]:
             # outside the supported subset: nothing proved for this function; every baseline clause of it is undecided
-            tgt = reg.contracts[r["target"]].target
+            tgt = reg.contracts[r["target"]].target + ("@" + reg.contracts[r["target"]].variant if getattr(reg.contracts[r["target"]], "variant", None) else "")
             keys = sorted(k for k in base if k.startswith(tgt + "/"))
             for k in keys or [tgt + "/unsupported[-]"]:
                 obligations.append({"id": k + "#unsupported", "key": k, "target": tgt, "kind": "unsupported", "status": "undecided",
@@ -184,7 +185,7 @@ def run_property(prop, tier, repo, here, targets=None, procs=None):
     # clauses proved in the baseline that produced no obligation at all now (e.g. the code path disappeared)
     produced = {o["key"] for o in obligations}
     for k in sorted(base - produced):
-        if any(k.startswith(reg.contracts[q].target + "/") for q in quals if q in reg.contracts) or k.startswith("lemma::"):
+        if any(k.startswith(reg.contracts[q].target + ("@" + reg.contracts[q].variant if getattr(reg.contracts[q], "variant", None) else "") + "/") for q in quals if q in reg.contracts) or k.startswith("lemma::"):
             if k.split("/")[1].startswith(("loop-", "call-requires", "assert", "no-undeclared", "frame", "loop-frame", "decreases")):
                 continue    # path-shaped obligations may legitimately disappear
             obligations.append({"id": k + "#missing", "key": k, "target": k.split("/")[0], "kind": "missing", "status": "undecided",
